@@ -277,5 +277,6 @@ def write_evidence(ctx: Ctx, mod, nviol: int) -> None:
 
 
 def is_empty_cluster_error(e: BaseException) -> bool:
-    """known finding F14 (C07): a cluster's microtable is empty while the table so far is not"""
-    return isinstance(e, ValueError) and ("empty range in randrange(0, 0)" in str(e) or "Empty sequence in cluster" in str(e))
+    """known findings F14 / F19 (C07): a cluster's microtable is empty while the table so far is not, or the other way round"""
+    return isinstance(e, ValueError) and ("empty range in randrange(0, 0)" in str(e) or "Empty sequence in cluster" in str(e)
+                                           or "Attempted a stitch with no rows" in str(e))
